@@ -576,17 +576,33 @@ def r132(ctx, rep, f, ev, cg, reach, O):
     prf = CDP + "process_readout_frame"
     tb = ev.tb(prf)
     if tb is not None:
-        ifs_ = [(x, n) for x, n in tb.walk() if n["k"] == "If"]
-        ok = False
-        det = ""
-        if len(ifs_) == 1:
-            x, n = ifs_[0]
-            then_calls = [(c.get("fn") or "").split("::")[-1] for _, c in tb.calls(n["then"])]
-            else_codes = codes_under(ctx.facts(), tb, n["else"]) if n.get("else") is not None else set()
-            cond_calls = [(c.get("fn") or "").split("::")[-1] for _, c in tb.calls(n["cond"])]
-            ok = "process_frame" in then_calls and else_codes == {O["codes"]["close_without_open"]} and "try_close_frame" in cond_calls and "is_ok" in cond_calls
-            det = "cond %s then %s else %s" % (cond_calls, [c for c in then_calls if c in ("process_frame",)], sorted(else_codes))
-        rep.check(ok, "R13.2", "R13.2|close|codes", "try_close_frame().is_ok() → process_frame, otherwise [E59] (%s)" % det, WC)
+        # decided per outcome of try_close_frame: Ok → the frame is processed and nothing is reported; Err → [E59] at the
+        # position of the closing TDT and the frame is not processed (whatever form the test has)
+        got = {}
+        for outcome in ("Ok", "Err"):
+            ev.call_hooks = [(lambda fn_, r_: (r_ or fn_).endswith("::try_close_frame"), lambda n, a, outcome=outcome: Agg("core::result::Result", outcome, {"0": ()})),
+                             (lambda fn_, r_: (r_ or fn_).endswith("::current_word_mem_pos"), lambda n, a: Sym("WORD_POS"))]
+            ev.watch = lambda c: c.endswith("::process_frame") or c.endswith("::send")
+            try:
+                evs = []
+                for o in ev.collect_ifs(prf, [Sym("self")], follow=lambda c: c.startswith(CDP)):
+                    if "call" not in o or any(g in ("false", "not true") for g in o["guard"]):
+                        continue
+                    und = tuple(g for g in o["guard"] if g not in ("true", "not false"))
+                    if o["call"].endswith("::process_frame"):
+                        evs.append(("process_frame", (), "", und))
+                    else:
+                        k_ = o["args"][1]
+                        evs.append((k_.split("(")[0], tuple(sorted(set(re.findall(r"\[(E\d+)\]", k_)))), "word-position" if _first_fmt_arg(k_) == "upper_hex:sym(WORD_POS)" else "other offset", und))
+                got[outcome] = evs
+            except Unsupported as e:
+                got[outcome] = [("unevaluable: %s" % e, (), "", ())]
+            finally:
+                ev.call_hooks = []
+                ev.watch = None
+        want = {"Ok": [("process_frame", (), "", ())], "Err": [("StatType::Error", (O["codes"]["close_without_open"],), "word-position", ())]}
+        rep.check(got == want, "R13.2", "R13.2|close|codes", "try_close_frame() Ok → process_frame, otherwise [E59] at the closing TDT and the frame is not processed", WC,
+                  "process_readout_frame does %s, expected %s" % (got, want))
         b = cg.body(prf)
         tc = [(bb, t) for bb, t, cal, c in b.calls() if cal and cal.endswith("::try_close_frame")]
         rep.check(len(tc) == 1 and "current_word_mem_pos" in show_origin(b.origin(tc[0][1]["args"][1])), "R13.2", "R13.2|close|end-pos", "frame end = position of the closing TDT", WC)
@@ -640,7 +656,7 @@ def r132(ctx, rep, f, ev, cg, reach, O):
                                 und = [g for g in o["guard"] if g not in ("true", "not false")]
                                 if k_.startswith("StatType::Error("):
                                     m_ = re.fullmatch(r"upper_hex:sym\(.*self\.alpide_readout_frame.*\.frame_start_mem_pos\)", _first_fmt_arg(k_) or "")
-                                    codes_ = tuple(sorted(set(re.findall(r"str:(E\d+)", k_))))
+                                    codes_ = tuple(sorted(set(re.findall(r"str:(E\d+)", k_)) | set(re.findall(r"\[(E\d+)\]", k_))))
                                     evs.append(("Error", codes_, "frame-start" if m_ else "other offset", tuple(und)))
                                 else:
                                     evs.append((k_[:60], (), "", tuple(und)))
@@ -663,7 +679,7 @@ def r132(ctx, rep, f, ev, cg, reach, O):
             if any(e[2] != "frame-start" for e in errs):
                 bad_off.append((case, errs))
             if empty:
-                if len(errs) != 1 or errs[0][1] or stats:
+                if len(errs) != 1 or errs[0][1] != (cd["empty_frame"],) or stats:
                     bad_empty.append((case, evs))
                 continue
             if len(stats) != 1:
@@ -833,10 +849,10 @@ def _bind_params(ev, tb, args):
 
 def _first_fmt_arg(key):
     """'<kind>:<value>' of the first argument of the outermost format! inside a message value, or None"""
-    head = "Arguments::<'a>::new(sym(lit),('array',sym(call:core::fmt::rt::Argument::<'_>::new_"
-    i = key.find(head)
-    if i < 0:
+    m0 = re.search(r"Arguments::<'a>::new\(sym\((?:lit|bytes:[^()]*)\),\('array',sym\(call:core::fmt::rt::Argument::<'_>::new_", key)
+    if not m0:
         return None
+    i, head = m0.start(), m0.group(0)
     j = key.find("(", i + len(head))
     kind = key[i + len(head):j]
     depth, k = 0, j
